@@ -298,8 +298,14 @@ def run_core_check(ctx, spec):
         samples.append({"family": cs["family"], "first_events": [
             {k: e.get(k) for k in ("ev", "r", "in", "h") if k in e} for e in vlib.read_ndjson(trace_path)[:6]]})
 
-    ctx.cover(traces_validated_against_impl=evaluations, evaluations=evaluations, distinct_nontrivial=nontrivial,
-              out_of_scope_divergence=oos, nonvacuity=nonvac, rule=spec["rule"], samples=samples, exhaustive=False)
+    if spec.get("merge"):
+        # an additional stage of a check that has its own main pipeline: counts accumulate, the
+        # stage's rule is kept under its own key
+        ctx.cover(traces_validated_against_impl=evaluations, evaluations=evaluations, distinct_nontrivial=nontrivial,
+                  out_of_scope_divergence=oos, samples=samples, **{"rule_" + spec["sig"]: spec["rule"], "nonvacuity_" + spec["sig"]: nonvac})
+    else:
+        ctx.cover(traces_validated_against_impl=evaluations, evaluations=evaluations, distinct_nontrivial=nontrivial,
+                  out_of_scope_divergence=oos, nonvacuity=nonvac, rule=spec["rule"], samples=samples, exhaustive=False)
     ctx.assumptions += spec.get("assumptions", []) + [
         "programs are generated (seeded) from the supported core language; literal text is plain ASCII without markup or escapes (C04/C13 own those)",
         "numbers stay in the window where double arithmetic is exact (dyadic, |n| <= 2^15, denominators <= 2^8); a case leaving it is counted (trace_out_of_window) and skipped",
